@@ -2,6 +2,7 @@ package c10
 
 import (
 	"strconv"
+	"strings"
 	"testing"
 
 	"go.lstv.dev/util/roman"
@@ -10,9 +11,21 @@ import (
 )
 
 // coldScenarios name the call that is made first in a fresh process; afterwards ordinary cases are judged.
-var coldScenarios = []string{"valid string", "valid bytes lower under rule", "valid empty", "valid invalid", "parse string", "parse bytes mixed", "parse empty under rule", "parse invalid", "parse foreign byte", "unmarshaltext", "unmarshaltext invalid", "format", "first parse while a custom Formatter is installed"}
+var coldScenarios = []string{"valid string", "valid bytes lower under rule", "valid empty", "valid invalid", "parse string", "parse bytes mixed", "parse empty under rule", "parse invalid", "parse foreign byte", "unmarshaltext", "unmarshaltext invalid", "format", "first parse while a custom Formatter is installed", "first parses under MaxInputLength 1", "first parses under MaxInputLength 4", "first parses under MaxInputLength 6", "first parses under MaxInputLength 0"}
 
 func coldFirst(scenario string) {
+	if strings.HasPrefix(scenario, "first parses under MaxInputLength ") {
+		// the limit is a setting: the process starts parsing under another one, which is then put back
+		lim, _ := strconv.Atoi(strings.TrimPrefix(scenario, "first parses under MaxInputLength "))
+		old := roman.MaxInputLength
+		roman.MaxInputLength = lim
+		_, _ = roman.DefaultParser("MCMXCIV", 0)
+		_ = roman.Valid([]byte("mdclxvi"), 0)
+		var n roman.Number
+		_ = n.UnmarshalText([]byte("xlii"))
+		roman.MaxInputLength = old
+		return
+	}
 	switch scenario {
 	case "valid string":
 		_ = roman.Valid("MCMXCIV", 0)
